@@ -119,6 +119,9 @@ func c18Prog(r *Rng, idx int) *Prog {
 		root.SynArgs = [][2]string{{"<input>", "ARGDESC-root"}}
 	}
 	p := &Prog{Mode: r.Intn(3), Unknown: 0, Help: "help", Root: root}
+	if r.Chance(1, 3) {
+		p.HelpAliases = [][]string{{"?"}, {"hh", "?"}, {"H"}}[r.Intn(3)]
+	}
 	if r.Bool() {
 		p.SelfName, p.SelfDesc = "prog"+strconv.Itoa(idx%7), "SELFDESC-END"
 	}
